@@ -23,7 +23,7 @@ RULE = (
     "recogniser with three values (in language -> table meaning must be returned; out of language "
     "-> ValueError; ambiguous, e.g. undocumented mission name or year outside 2014-2049 -> no "
     "claim); a sample of product ids is opened as real products through open_alos2 (quick 40, "
-    "thorough 900). Non-trivial: every string (each is a distinct identifier); distinct = the string."
+    "thorough 900; a quarter of them once more with the lines of summary.txt in another order - identifier lines first, sorted, reversed), and products whose summary carries a product / scene id outside the language (level 1.6, month 13; in the usual and in the three other line orders) must fail to open with ValueError. Non-trivial: every string (each is a distinct identifier); distinct = the string."
 )
 ASSUMPTIONS = [
     "the code tables in this file are the documented ones (decoders.py docstrings / JAXA format description)",
@@ -342,6 +342,34 @@ def check_open(case):
         }
     )
     files, info = product.build_product(spec)
+    if case.get("order"):
+        # the same summary with its lines in another order (the two identifier lines first,
+        # sorted by keyword, reversed): what the identifiers decode to does not depend on it
+        lines = files["summary.txt"].decode("ascii").splitlines(keepends=True)
+        if case["order"] == "ids-first":
+            lines.sort(key=lambda l: not l.startswith(("Scs_SceneID", "Pds_ProductID")))
+        elif case["order"] == "sorted":
+            lines.sort()
+        elif case["order"] == "reversed":
+            lines.reverse()
+        files["summary.txt"] = "".join(lines).encode("ascii")
+    if case.get("bad_id"):
+        # an identifier outside the language in the summary: the open must fail with ValueError
+        text = files["summary.txt"].decode("ascii")
+        if case["bad_id"] == "product":
+            bad = pid[:4] + "1.6" + pid[7:]
+            text = text.replace(f'Pds_ProductID="{pid}"', f'Pds_ProductID="{bad}"')
+        else:
+            bad = spec["scene_id"][:-4] + "1332"
+            text = text.replace(f'Scs_SceneID="{spec["scene_id"]}"', f'Scs_SceneID="{bad}"')
+        files["summary.txt"] = text.encode("ascii")
+        with harness.Materialised(files, "memory") as prod:
+            tree, err = harness.guard(harness.open_tree, prod.url, use_cache=False)
+        if err is None:
+            return [harness.disc("accepted-invalid", "open_alos2", "ValueError", "a tree", string=bad)]
+        if not isinstance(err, ValueError):
+            return [harness.disc("wrong-exception", "open_alos2", "ValueError", harness.exc_text(err), string=bad)]
+        return []
     if case.get("bad_name"):
         # the same product with ONE image file whose name is outside the language (and listed
         # under that name in the summary): the name must be rejected, not turned into some group
@@ -410,6 +438,13 @@ def enum_cases(tier):
         idx = rng.randrange(3600)
         scan = rng.choice([None, None, "F1", "B3"])
         yield {"kind": "open", "index": idx, "scan": scan}
+        if i % 4 == 0:
+            yield {"kind": "open", "index": idx, "scan": scan, "order": ["ids-first", "sorted", "reversed"][(i // 4) % 3]}
+    for j, (what, order) in enumerate(itertools.product(["product", "scene"], [None, "ids-first", "sorted", "reversed"])):
+        case = {"kind": "open", "index": rng.randrange(3600), "scan": None, "bad_id": what}
+        if order:
+            case["order"] = order
+        yield case
     for j, how in enumerate(["date", "month", "level", "mode", "pol", "lower", "scan"]):
         yield {"kind": "open", "index": rng.randrange(3600), "scan": [None, "F2"][j % 2], "bad_name": how}
 
